@@ -3079,15 +3079,25 @@ func (c S3ApiController) DeleteObjects(ctx *fiber.Ctx) error {
 				Objects: dObj.Objects,
 			},
 		})
+	// events are sent for the objects that were deleted, not for those
+	// the request failed for
+	deleted := make([]s3event.EventDeletedObject, 0, len(res.Deleted))
+	for _, d := range res.Deleted {
+		if d.Key == nil {
+			continue
+		}
+		deleted = append(deleted, s3event.EventDeletedObject{Key: *d.Key, VersionId: d.VersionId})
+	}
 	return SendXMLResponse(ctx, res, err,
 		&MetaOpts{
-			Logger:      c.logger,
-			MetricsMng:  c.mm,
-			Action:      metrics.ActionDeleteObjects,
-			ObjectCount: int64(len(dObj.Objects)),
-			BucketOwner: parsedAcl.Owner,
-			EvSender:    c.evSender,
-			EventName:   s3event.EventObjectRemovedDeleteObjects,
+			Logger:         c.logger,
+			MetricsMng:     c.mm,
+			Action:         metrics.ActionDeleteObjects,
+			ObjectCount:    int64(len(dObj.Objects)),
+			BucketOwner:    parsedAcl.Owner,
+			EvSender:       c.evSender,
+			EventName:      s3event.EventObjectRemovedDeleteObjects,
+			DeletedObjects: deleted,
 		})
 }
 
@@ -3968,6 +3978,8 @@ type MetaOpts struct {
 	ObjectETag    *string
 	VersionId     *string
 	Status        int
+	// DeletedObjects lists the objects a DeleteObjects request removed
+	DeletedObjects []s3event.EventDeletedObject
 }
 
 func SendResponse(ctx *fiber.Ctx, err error, l *MetaOpts) error {
@@ -4082,11 +4094,12 @@ func SendXMLResponse(ctx *fiber.Ctx, resp any, err error, l *MetaOpts) error {
 
 	if l.EvSender != nil {
 		l.EvSender.SendEvent(ctx, s3event.EventMeta{
-			BucketOwner: l.BucketOwner,
-			ObjectSize:  l.ObjectSize,
-			ObjectETag:  l.ObjectETag,
-			VersionId:   l.VersionId,
-			EventName:   l.EventName,
+			BucketOwner:    l.BucketOwner,
+			ObjectSize:     l.ObjectSize,
+			ObjectETag:     l.ObjectETag,
+			VersionId:      l.VersionId,
+			EventName:      l.EventName,
+			DeletedObjects: l.DeletedObjects,
 		})
 	}
 
